@@ -566,8 +566,34 @@ def binop(ctx, op, a, b):
     if name == "Add" and isinstance(a, tuple) and isinstance(b, tuple):
         return a + b
     if name == "Mod" and is_strlike(a):
-        ctx.note("stub: %-formatting with symbolic operands yields an arbitrary string")
-        return SStr(z3.String(ctx.fresh_name("formatted")))
+        if isinstance(a, SStr):
+            ctx.note("format-template: a symbolic string is used as a %-format template (its % directives are interpreted)")
+            return SStr(z3.String(ctx.fresh_name("formatted")))
+        # concrete template, symbolic arguments: %s / %r / %% only
+        import re as _re
+        vals = list(b) if isinstance(b, tuple) else [b]
+        if isinstance(b, dict):
+            raise Unsupported("%-formatting with a mapping and symbolic values")
+        parts = _re.split(r"(%[sr%])", a)
+        if _re.search(r"%[^sr%]", a):
+            ctx.note("stub: %-formatting with symbolic operands yields an arbitrary string")
+            return SStr(z3.String(ctx.fresh_name("formatted")))
+        out = ""
+        it = iter(vals)
+        for part in parts:
+            if part == "%%":
+                out = str_concat(out, "%")
+            elif part in ("%s", "%r"):
+                try:
+                    v = next(it)
+                except StopIteration:
+                    raise SymRaise(TypeError("not enough arguments for format string"))
+                out = str_concat(out, py_str(ctx, v) if part == "%s" else py_repr(ctx, v))
+            else:
+                out = str_concat(out, part)
+        if next(it, None) is not None:
+            raise SymRaise(TypeError("not all arguments converted during string formatting"))
+        return out
     if is_numeric(a) and is_numeric(b):
         return num_binop(ctx, name, a, b)
     raise Unsupported("binary %s on %s and %s" % (name, pytype_of(a).__name__,
